@@ -33,6 +33,7 @@ BDD_RULE = {
     'model': 'exhaustive: model of all 65536 functions of 4 variables, infer on every 16th (thorough: all) for 5 ids, also on the extracted model; plus seeded random functions over <=7 sparse variables',
     'retain': 'exhaustive: retain_choice_bottom_up of all 65536 functions of 4 variables x {True,False,Any}; plus seeded random',
     'clean': 'exhaustive: clean of all 65536 functions of 4 variables; plus seeded random',
+    'wide': 'many variables: and/or chains over 33, 64, 65, 70, 129 variable ids (thorough up to 200) with negated literals, their negation, implication, equivalence, model, retain, exists/all over odd / reversed / all ids, infer, a fixed point; counting over 8, 11, 13 plain variables with large ids',
     'mixed': 'seeded random programs of depth <=3 mixing all public operations (connectives, counting, quantifiers, model, retain, clean, monotone fp), most of them in one long-lived environment',
 }
 
@@ -92,7 +93,7 @@ def gen(parts):
 
 
 PROPS = {
-    'C02': dict(suites=[bdd(['conn', 'quant', 'count', 'fp', 'model', 'retain', 'clean', 'mixed'])]),
+    'C02': dict(suites=[bdd(['conn', 'quant', 'count', 'fp', 'model', 'retain', 'clean', 'mixed', 'wide'])]),
     'C01': dict(suites=[text(['tok', 'parse', 'eval', 'evalfp', 'evalwide'])]),
     'C08': dict(suites=[text(['tok', 'parse'])]),
     'C09': dict(suites=[text(['eval', 'evalwide'])]),
@@ -110,12 +111,12 @@ PROPS = {
     'C16': dict(suites=[gen(['clique'])]),
     'C17': dict(suites=[gen(['sudoku'])]),
     'C18': dict(suites=[gen(['graph'])]),
-    'C03': dict(suites=[bdd(['conn'])]),
-    'C04': dict(suites=[bdd(['quant'])]),
-    'C05': dict(suites=[bdd(['count']), text(['evalc'])]),
+    'C03': dict(suites=[bdd(['conn', 'wide'])]),
+    'C04': dict(suites=[bdd(['quant', 'wide'])]),
+    'C05': dict(suites=[bdd(['count', 'wide']), text(['evalc'])]),
     'C06': dict(suites=[bdd(['fp']), text(['evalfp'], exhaustive=False)]),
-    'C07': dict(suites=[bdd(['model']), cli(['grid'])]),
-    'C20': dict(suites=[bdd(['retain']), cli(['grid'])]),
+    'C07': dict(suites=[bdd(['model', 'wide']), cli(['grid'])]),
+    'C20': dict(suites=[bdd(['retain', 'wide']), cli(['grid'])]),
 }
 
 HOOK_COMMITS = ['d9157ce']
@@ -213,3 +214,7 @@ _t('C17', 'Theorem for every root r and hint list with cells below r^4 and digit
           'Digits 0 or above r^2 only force an auxiliary variable (outside the theorem\'s hypothesis, compared by correspondence). Correspondence: hints and constraint families as multisets for r = 1, 2, 3 on exhaustive small and random texts; the output must be a formula (D9).', NOTE_GEN)
 _t('C18', 'Theorems: for EVERY permutation the shuffle may return, a feasible request yields exactly E distinct candidate edges between distinct vertices below V (no pair in both orientations under -u) and an infeasible one is refused (C18_gen); the executable valid_output accepts exactly such answers (valid_output_sound, gen_graph_valid); --convert is the identity / merges reversed duplicates (C18_convert, C18_convert_u); a clique of the colour graph covering every vertex exists iff the input is k-colourable (C18_colours). '
           'The randomness itself cannot be exhibited by a model: every real answer is judged by the extracted valid_output. Correspondence: (V,E) grid x flags x repeated runs; convert and colours on all small edge lists.', NOTE_GEN)
+
+# the state lint runs with every property whose model is the state-free tree model of the library
+for _p in ('C01', 'C02', 'C03', 'C04', 'C05', 'C06', 'C07', 'C09', 'C13', 'C19', 'C20'):
+    PROPS[_p]['state_lint'] = True
